@@ -156,6 +156,9 @@ class Driver:
     def lexcheck(self, text, timeout=10.0):
         return self.request("X %d" % self.nreq, [text], timeout)
 
+    def parse(self, text, timeout=10.0):
+        return self.request("A %d" % self.nreq, [text], timeout)
+
     def status(self):
         return self.request("S %d" % self.nreq, [], 10.0)
 
